@@ -17,6 +17,7 @@ import (
 	"fmt"
 	"io"
 	"log"
+	"net"
 	"net/http"
 	"net/http/httptest"
 	"os"
@@ -159,7 +160,7 @@ type Body struct {
 }
 
 type Step struct {
-	Kind string `json:"kind"` // setup: mkdag mkshow rec surgery live unlive stubexit;  api: post create delete details;  exec: run the last spawned argv with the REAL binary
+	Kind string `json:"kind"` // setup: mkdag mkshow rec surgery live hang unlive stubexit;  api: post create delete details;  exec: run the last spawned argv with the REAL binary
 	Name string `json:"name,omitempty"`
 	Text string `json:"text,omitempty"`
 	// rec
@@ -227,6 +228,15 @@ type liveSrv struct {
 	st    int
 }
 
+// a process that owns the DAG's control socket but is not scheduled: the connection is accepted (by the kernel's
+// backlog and by this accept loop) and nothing is ever answered
+type hangSrv struct {
+	ln    net.Listener
+	addr  string
+	mu    sync.Mutex
+	conns []net.Conn
+}
+
 type env struct {
 	root, dags, data, flags string
 	stubLog, stubExit       string
@@ -237,6 +247,7 @@ type env struct {
 	bySha                   map[string]string
 	locs                    map[string]string
 	live                    map[string]*liveSrv
+	hang                    map[string]*hangSrv
 	mu                      sync.Mutex
 	stops                   []string
 	nspawn                  int
@@ -252,7 +263,7 @@ func newEnv(root string, pool []*Text, stub string) *env {
 	e := &env{root: root, dags: filepath.Join(root, "dags"), data: filepath.Join(root, "data"),
 		flags: filepath.Join(root, "suspend"), stubLog: filepath.Join(root, "stub.log"),
 		stubExit: filepath.Join(root, "stub.exit"), pool: pool, bySha: map[string]string{},
-		locs: map[string]string{}, live: map[string]*liveSrv{}}
+		locs: map[string]string{}, live: map[string]*liveSrv{}, hang: map[string]*hangSrv{}}
 	_ = os.MkdirAll(e.data, 0o755)
 	_ = os.MkdirAll(e.dags, 0o755)
 	for _, t := range pool {
@@ -280,6 +291,52 @@ func (e *env) close() {
 	for _, l := range e.live {
 		e.stopLive(l)
 	}
+	for l := range e.hang {
+		e.stopHang(l)
+	}
+}
+
+func (e *env) startHang(name string) error {
+	l := e.loc(name)
+	if old, ok := e.live[l]; ok {
+		e.stopLive(old)
+	}
+	e.stopHang(l)
+	addr := (&dag.DAG{Name: name, Location: l}).SockAddr()
+	_ = os.Remove(addr)
+	ln, err := net.Listen("unix", addr)
+	if err != nil {
+		return err
+	}
+	h := &hangSrv{ln: ln, addr: addr}
+	go func() {
+		for {
+			c, err := ln.Accept()
+			if err != nil {
+				return
+			}
+			h.mu.Lock()
+			h.conns = append(h.conns, c) // kept open, never read, never answered
+			h.mu.Unlock()
+		}
+	}()
+	e.hang[l] = h
+	return nil
+}
+
+func (e *env) stopHang(l string) {
+	h, ok := e.hang[l]
+	if !ok {
+		return
+	}
+	_ = h.ln.Close()
+	h.mu.Lock()
+	for _, c := range h.conns {
+		_ = c.Close()
+	}
+	h.mu.Unlock()
+	_ = os.Remove(h.addr)
+	delete(e.hang, l)
 }
 
 func (e *env) text(id string) []byte {
@@ -606,11 +663,18 @@ func (e *env) apply(s *Step) {
 			s.Note = err.Error()
 			s.Code = 1
 		}
+	case "hang":
+		s.Loc = e.loc(s.Name)
+		if err := e.startHang(s.Name); err != nil {
+			s.Note = err.Error()
+			s.Code = 1
+		}
 	case "unlive":
 		s.Loc = e.loc(s.Name)
 		if l, ok := e.live[s.Loc]; ok {
 			e.stopLive(l)
 		}
+		e.stopHang(s.Loc)
 	case "stubexit":
 		_ = os.WriteFile(e.stubExit, []byte(fmt.Sprint(s.Exit)), 0o644)
 	case "post":
@@ -620,6 +684,9 @@ func (e *env) apply(s *Step) {
 			b.Value = string(e.text(s.Body.Value)) // the case names the text by its id
 		}
 		isMark := s.Body.Action != nil && (*s.Body.Action == "mark-success" || *s.Body.Action == "mark-failed")
+		if _, hung := e.hang[e.loc(s.Name)]; hung {
+			isMark = false // every query would wait out the 3 s socket timeout; the byte-level dump is the observable here
+		}
 		if isMark {
 			s.QBefore = e.queries(s.Name, s.Body.RequestID)
 		}
@@ -817,6 +884,10 @@ func stateSetup(state string) []Step {
 		st = append(st, Step{Kind: "rec", Name: "a", Stamp: 2000, Lines: []Line{line(reqCur, 1, 1, 0), line(reqCur, 3, 4, 3)}, Closed: true})
 	case "crashed":
 		st = append(st, Step{Kind: "rec", Name: "a", Stamp: 2000, Lines: []Line{line(reqCur, 1, 4, 1)}, Closed: false})
+	case "running-unresponsive":
+		// the run's process is alive and owns the control socket, but does not answer (stopped / starved)
+		st = append(st, Step{Kind: "rec", Name: "a", Stamp: 2000, Lines: []Line{line(reqCur, 1, 1, 0)}, Closed: false},
+			Step{Kind: "hang", Name: "a"})
 	case "crashed-torn":
 		// killed in the middle of writing a status: the file ends in a proper prefix of a line
 		st = append(st, Step{Kind: "rec", Name: "a", Stamp: 2000, Lines: []Line{line(reqCur, 1, 1, 0), line(reqCur, 1, 4, 1)}, Closed: false},
@@ -1020,6 +1091,25 @@ func generated(tier string, rng *vh.Rng) []*Case {
 			steps = append(steps, r.pre...)
 			steps = append(steps, r.step)
 			cs = append(cs, &Case{K: k, Stream: "table-shapes", State: st, Row: r.name, Steps: steps})
+			k++
+		}
+	}
+	// running, process unresponsive: every socket request of the client waits out its 3 s timeout (a status edit makes
+	// three of them), so only a handful of cells - more in the thorough tier
+	unresp := []string{"mark-success/req-cur/step-s1", "stop", "start/params1"}
+	if tier == "thorough" {
+		unresp = append(unresp, "mark-failed/req-cur/step-s2", "mark-success/req-old/step-s1", "mark-failed/req-old/step-s2",
+			"mark-success/req-cur/step-wrong", "mark-success/req-wrong/step-s1", "retry/present", "details", "suspend/true")
+	}
+	for _, r := range rows() {
+		for _, u := range unresp {
+			if r.name != u {
+				continue
+			}
+			steps := append([]Step{}, stateSetup("running-unresponsive")...)
+			steps = append(steps, r.pre...)
+			steps = append(steps, r.step)
+			cs = append(cs, &Case{K: k, Stream: "table-unresponsive", State: "running-unresponsive", Row: r.name, Steps: steps})
 			k++
 		}
 	}
